@@ -294,7 +294,10 @@ def showKRes : KRes → String
   | .err e => showErr e
   | .empty => "empty"
   | .view v =>
-    if v.img.length = 0 then "degenerate" else
+    if v.img.length = 0 then "degenerate"
+    -- a view of one pixel in one line: pylake reads pixel/line time from the second pixel/line and raises
+    -- (finding F21 territory); nothing is compared beyond the image itself
+    else if v.img.length = 1 ∧ numCols v.img = 1 then "single-pixel " ++ showImg v.img else
     "view img=" ++ showImg v.img ++ " ranges=" ++ (match v.ranges with | some r => showRanges r | none => "undefined")
       ++ " px=" ++ showRat v.px ++ " unit=" ++ toString v.unit
       ++ " pxum=" ++ (match v.pxUm with | some r => showRat r | none => "N")
